@@ -449,6 +449,11 @@ class Run(RunBase):
     def _after(self, touched):
         """Compare touched objects always; everything else when the run's buggify switch says so."""
         mode = self.cfg["sweep"]
+        if mode == "sparse" and not getattr(self, "_in_shadow", False):
+            # no look right after the mutation: derived data that is rebuilt lazily "on first use" must also survive a
+            # second mutation arriving before any query.  The queriers' operations and the final sweep decide.
+            self.probe("mutation-not-followed-by-a-query")
+            return
         if mode == "always" or (mode == "half" and self._coin()):
             self._sweep()
             return
@@ -492,6 +497,11 @@ class Run(RunBase):
             self._check_shadow()
         self.note_state([self.last_mut, sorted(self.warm), self._net_ids(), self.shadow is not None])
         return out
+
+    def finish(self):
+        self.last_mut = self.last_mut + "+end-of-run"
+        self._sweep()
+        self._check_shadow()
 
     def _op_swap(self, op):
         self._swap()
@@ -1076,6 +1086,7 @@ class C11(Property):
     title = "Derived data never goes stale under mutation"
     tiers = {"quick": {"runs": 1600, "wall": 240, "chunk": 10}, "thorough": {"runs": 60000, "wall": 1700, "chunk": 25}}
     expected_probes = ["restart-with-warm-cache", "history-truncation-hit", "fork-keeps-original", "fork-by-derived-network", "lookup-on-emptied-network",
+                       "mutation-not-followed-by-a-query",
                        "continued-on-the-other-copy", "trajectory-replaced-by-shifted-copy",
                        "trajectory-object-transformed-and-reassigned", "cycle-edited-in-place-and-reassigned",
                        "merge-with-id-clash", "two-obstacles-share-one-state-list",
@@ -1114,7 +1125,7 @@ class C11(Property):
                 "queries": sorted(rng.subset(QUERIES, 0.6, at_least=2)),
                 "mutators": sorted(rng.subset(MUTATORS, 0.5, at_least=2)),
                 "n_queriers": rng.randint(1, 2), "n_mutators": rng.randint(1, 2),
-                "restarts": rng.chance(0.5), "sweep": rng.pick(["always", "half", "never"]),
+                "restarts": rng.chance(0.5), "sweep": rng.pick(["always", "half", "never", "sparse", "sparse"]),
                 "max_lens": sorted(rng.sample([1, 2, 3, 4, 6000], rng.randint(1, 3)))}
 
     def gen_universe(self, rng, cfg):
